@@ -136,6 +136,20 @@ def fam_rec(tier, rng):
             main.append(b.print(*(rec_fields(base()) + [lit("$", "|")])))
             main.append(b.print(*(rec_fields(other()) + [lit("$", "|")])))
             out.append({"fam": "rec:%d/%s" % (which, host), "prog": prog(main, types=TYPES)})
+            # the same with every member written with the suffix of its type (R.S$ = .., PRINT R.IN.N&)
+            for wr, rd in ((True, False), (False, True), (True, True)):
+                b2 = b          # statement ids go on
+                m2 = [dict(x) for x in main[:-3]]
+
+                def spelled(fs, on):
+                    for f_ in fs:
+                        if on:
+                            f_["sfxspell"] = True
+                    return fs
+                m2.append(b2.let(spelled(rec_fields(base()), wr)[which], vals[which]))
+                m2.append(b2.print(*(spelled(rec_fields(base()), rd) + [lit("$", "|")])))
+                m2.append(b2.print(*(spelled(rec_fields(other()), rd) + [lit("$", "|")])))
+                out.append({"fam": "rec-suffix:%d/%s/%s%s" % (which, host, "w" if wr else "-", "r" if rd else "-"), "prog": prog(m2, types=TYPES)})
     # whole-record assignment copies; later writes to the copy do not touch the source
     b = B()
     r, o = (lambda: var("R", "U")), (lambda: var("O", "U"))
